@@ -392,7 +392,8 @@ impl Engine for C07 {
                     "<svg><rect xy=\"{{{{randint(0, 99)}}}} {{{{randint(0, 99)}}}}\" wh=\"{{{{randint(1, 9)}}}}\" text=\"{{{{random()}}}}\"/><circle cxy=\"^@br\" r=\"{{{{randint(1, 5)}}}}\"/></svg>"
                 )),
                 4 => Doc::from_str(""),
-                6 | 7 => Doc::from_str(&docgen::leak_probe_doc(&mut w)),
+                6 => Doc::from_str(&docgen::leak_probe_doc(&mut w)),
+                7 | 8 => Doc::from_str(&docgen::stateful_doc(&mut w)),
                 5 if damage => Doc(vec![b'<', b's', b'v', b'g', b'>', 0xff, b'<', b'/', b's', b'v', b'g', b'>']),
                 _ => Doc::from_str(&docgen::feature_doc(&mut w, w_bool(&mut c), true)),
             };
